@@ -498,6 +498,15 @@ pub mod model {
             pub fn into_values(self) -> IntoValues<K, V> {
                 IntoValues(self.into_iter())
             }
+            pub fn iter_mut(&mut self) -> impl DoubleEndedIterator<Item = (&K, &mut V)> {
+                self.slots.iter_mut().filter_map(|s| s.as_mut().map(|(k, v)| (&*k, v)))
+            }
+            pub fn values_mut(&mut self) -> impl DoubleEndedIterator<Item = &mut V> {
+                self.slots.iter_mut().filter_map(|s| s.as_mut().map(|(_, v)| v))
+            }
+            pub fn into_keys(self) -> impl DoubleEndedIterator<Item = K> {
+                self.into_iter().map(|(k, _)| k)
+            }
             pub fn clear(&mut self) {
                 *self = Self::new();
             }
@@ -739,6 +748,15 @@ pub mod model {
             }
             pub fn or_insert(self, v: V) -> &'a mut V {
                 self.or_insert_with(|| v)
+            }
+            pub fn and_modify<F: FnOnce(&mut V)>(self, f: F) -> Self {
+                if let Some(v) = self.m.get_mut(&self.k) {
+                    f(v);
+                }
+                self
+            }
+            pub fn key(&self) -> &K {
+                &self.k
             }
             pub fn or_default(self) -> &'a mut V
             where
@@ -1171,6 +1189,21 @@ pub mod model {
             pub fn values(&self) -> impl Iterator<Item = &V> {
                 self.iter().map(|(_, v)| v)
             }
+            pub fn iter_mut(&mut self) -> impl Iterator<Item = (&K, &mut V)> {
+                self.slots.iter_mut().filter_map(|s| s.as_mut().map(|(k, v)| (&*k, v)))
+            }
+            pub fn values_mut(&mut self) -> impl Iterator<Item = &mut V> {
+                self.slots.iter_mut().filter_map(|s| s.as_mut().map(|(_, v)| v))
+            }
+            pub fn into_keys(self) -> impl Iterator<Item = K> {
+                self.into_iter().map(|(k, _)| k)
+            }
+            pub fn into_values(self) -> impl Iterator<Item = V> {
+                self.into_iter().map(|(_, v)| v)
+            }
+            pub fn drain(&mut self) -> IntoIter<K, V> {
+                core::mem::take(self).into_iter()
+            }
         }
         impl<K: Eq, V> HashMap<K, V> {
             pub fn get<Q: ?Sized + Eq>(&self, k: &Q) -> Option<&V>
@@ -1338,6 +1371,15 @@ pub mod model {
             }
             pub fn or_insert(self, v: V) -> &'a mut V {
                 self.or_insert_with(|| v)
+            }
+            pub fn and_modify<F: FnOnce(&mut V)>(self, f: F) -> Self {
+                if let Some(v) = self.m.get_mut(&self.k) {
+                    f(v);
+                }
+                self
+            }
+            pub fn key(&self) -> &K {
+                &self.k
             }
             pub fn or_default(self) -> &'a mut V
             where
